@@ -176,7 +176,7 @@ RECONNECT_CAUSES = ('healthy', 'eof', 'rst', 'wr')
 CLOSE_STEPS = 16
 
 
-def close_during_reconnect(flavour, cause, trigger, k, pending, part, role='client', after_loss=False):
+def close_during_reconnect(flavour, cause, trigger, k, pending, part, role='client', after_loss=False, retry=False):
     """A client with a provider of three transports; the connection ends by `cause`, reconnect() is asked for (by the
     application itself or from its on_close callback), and the application calls close() exactly k loop iterations later -
     every k from 'same iteration' to 'the new connection is up'. After close() the client is closed: it sends nothing any more on
@@ -237,6 +237,17 @@ def close_during_reconnect(flavour, cause, trigger, k, pending, part, role='clie
         if pending:
             st['fut'] = watch_future(w, 'c', 'futA', me.request_response(P(b'late')))
             st['sub'] = RecSubscriber(w, 'c', 'subB')
+            if retry:
+                # the common retry-on-error pattern: the subscriber's on_error issues a new request at once - i.e. while the
+                # endpoint is in the middle of failing its streams
+                real_on_error = st['sub'].on_error
+
+                def on_error_retry(exc):
+                    real_on_error(exc)
+                    if 'retry_fut' not in st:
+                        st['retry_fut'] = watch_future(w, 'c', 'futR', me.request_response(P(b'retry')))
+
+                st['sub'].on_error = on_error_retry
             me.request_stream(P(b's')).initial_request_n(1).subscribe(st['sub'])
             pump()
         # the previous connection ends / the application asks for the reconnect
@@ -280,7 +291,7 @@ def close_during_reconnect(flavour, cause, trigger, k, pending, part, role='clie
         part.traces += 1
         part.transitions += k + 2
         ctx = ('close-during-reconnect | %s/%s' % (cause, trigger)) if trigger != 'none' else ('close-during-teardown | %s/%s' % (role, cause))
-        wit = {'kind': 'close-during-reconnect', 'flavour': flavour, 'cause': cause, 'trigger': trigger, 'k': k, 'pending': pending, 'role': role, 'late': after_loss}
+        wit = {'kind': 'close-during-reconnect', 'flavour': flavour, 'cause': cause, 'trigger': trigger, 'k': k, 'pending': pending, 'role': role, 'late': after_loss, 'retry': retry}
         late_tx = [ev for ev in w.log[quiet:] if ev[0] == 'tx' and ev[1].startswith('c' if role == 'client' else 's')]
         took = [ev[1] for ev in w.log[quiet:] if ev[0] == 'provide']
         part.state((flavour, cause, trigger, pending, closer.done(), len(late_tx), len(took), len(closes)))
@@ -301,6 +312,9 @@ def close_during_reconnect(flavour, cause, trigger, k, pending, part, role='clie
                 part.violate('C11.pending-failed', 'C11.pending-failed | %s | awaitable' % ctx, 'request-response pending when the connection ended was never failed (k=%d)' % k, wit)
             if st['sub'].terminal() is None:
                 part.violate('C11.pending-failed', 'C11.pending-failed | %s | subscriber' % ctx, 'stream pending when the connection ended was never failed (k=%d)' % k, wit)
+        if retry and 'retry_fut' in st and st['retry_fut']['state'] == 'pending':
+            part.violate('C11.pending-failed', 'C11.pending-failed | %s | awaitable-issued-from-on_error' % ctx,
+                         'request-response issued from a subscriber\'s on_error while the endpoint was failing its streams is still pending after close() (k=%d)' % k, wit)
         if after_loss:
             if st['late_fut']['state'] == 'pending':
                 part.violate('C11.pending-failed', 'C11.pending-failed | %s | awaitable-issued-after-loss' % ctx, 'request-response issued after the loss and pending at close() was never failed (k=%d)' % k, wit)
@@ -428,6 +442,8 @@ def run_unit(unit, part):
             for cause in ('eof', 'rst', 'wr'):
                 for k in (0, 1, 2, 4, 8, CLOSE_STEPS, 40):
                     close_during_reconnect(unit['flavour'], cause, 'none', k, False, part, role, after_loss=True)
+                for k in (0, 2, 8, CLOSE_STEPS):
+                    close_during_reconnect(unit['flavour'], cause, 'none', k, True, part, role, retry=True)
         part.sample({'kind': 'close-during-reconnect', 'link': unit['flavour'], 'causes': list(RECONNECT_CAUSES), 'close_after_loop_iterations': [0, CLOSE_STEPS - 1]}, limit=1)
         return
     dev_explore(scenario_of(unit), unit['bound'], part, shard=tuple(unit['shard']), det_every=200)
@@ -444,7 +460,7 @@ def replay(rec):
     if w.get('kind') == 'close-during-reconnect':
         from mc.runner import Partial
         p = Partial()
-        close_during_reconnect(w['flavour'], w['cause'], w['trigger'], w['k'], w['pending'], p, w.get('role', 'client'), w.get('late', False))
+        close_during_reconnect(w['flavour'], w['cause'], w['trigger'], w['k'], w['pending'], p, w.get('role', 'client'), w.get('late', False), w.get('retry', False))
         for v in p.violations.values():
             print(v.rule, '|', v.detail)
         return bool(p.violations)
